@@ -31,8 +31,8 @@ func init() {
 	add("quick", 0, 4, 1, 1, 5, 0)
 	add("thorough", 0, 3, 1, 1, 5, 0)
 	add("thorough", 0, 0, 0, 2, 3, 0)
-	add("thorough", 1, 0, 0, 1, 0, 1)
-	add("thorough", 2, 0, 2, 2, 5, 0)
+	// (ct 1 and 2 - three / six blocks per unit, each with a symbolic DC - ran for more than 40 minutes
+	// without finishing even with no symbolic ACs: not registered; Units/Misuse cover all colour types)
 	// symbolic AC patterns 1..9 on the single-component colour type (77-127 s each); with three or six
 	// blocks per unit (ct 1, 2) one such configuration did not finish in 75 minutes and is not registered
 	for pat := 1; pat <= 9; pat++ {
